@@ -980,10 +980,11 @@ class Time(AbstractDateTime):
         )
 
     def __add__(self, other: object) -> 'Time':
+        # The time arithmetic is modulo 24 hours
         if isinstance(other, DayTimeDuration):
-            dt = self._dt + other.get_timedelta()
+            dt = self._dt + DayTimeDuration(other.seconds % 86400).get_timedelta()
         elif isinstance(other, datetime.timedelta):
-            dt = self._dt + other
+            dt = self._dt + other % _1DAY_DELTA
         else:
             raise TypeError("wrong type %r for operand %r" % (type(other), other))
         return Time(dt.hour, dt.minute, dt.second, dt.microsecond, dt.tzinfo)
@@ -993,10 +994,10 @@ class Time(AbstractDateTime):
             dt1, dt2 = get_comparable_datetimes(self._dt, other._dt)
             return DayTimeDuration.fromtimedelta(dt1 - dt2)
         elif isinstance(other, DayTimeDuration):
-            dt = self._dt - other.get_timedelta()
+            dt = self._dt - DayTimeDuration(other.seconds % 86400).get_timedelta()
             return Time(dt.hour, dt.minute, dt.second, dt.microsecond, dt.tzinfo)
         elif isinstance(other, datetime.timedelta):
-            dt = self._dt - other
+            dt = self._dt - other % _1DAY_DELTA
             return Time(dt.hour, dt.minute, dt.second, dt.microsecond, dt.tzinfo)
         else:
             raise TypeError("wrong type %r for operand %r" % (type(other), other))
